@@ -215,6 +215,10 @@ class ContractableBOSS(BaseClassifier):
                 boss, y_subsample, subsample_size, lowest_acc
             )
             weight = math.pow(boss.accuracy, 4)
+            if weight == 0:
+                # a member without a single correct training case keeps a negligible
+                # vote: weights that are all zero leave no probabilities to return
+                weight = 0.000000001
 
             if num_classifiers < self.max_ensemble_size:
                 if boss.accuracy < lowest_acc:
